@@ -18,6 +18,14 @@ func (fx *FnCtx) emit(st *State, name, kind string, tags []string, goal, clause,
 	if goal == "true" {
 		return
 	}
+	// a conjunctive goal is split into one query per conjunct (smaller, more stable queries);
+	// the obligation is discharged iff all of them are
+	if parts := splitConj(goal); len(parts) > 1 {
+		for _, g := range parts {
+			fx.emit(st, name, kind, tags, g, clause, where)
+		}
+		return
+	}
 	fx.nPaths++
 	q := &Query{Obligation: fx.oblPrefix() + ":" + name, Func: fx.key, Kind: kind, Tags: tags, Path: fx.nPaths, Clause: clause, Where: where}
 	facts := append([]string(nil), st.facts...)
@@ -411,4 +419,83 @@ func uniqueSorted(s []string) []string {
 	}
 	sort.Strings(out)
 	return out
+}
+
+// splitConj splits "(and A B ...)" (also under "(=> P (and ...))") into its conjuncts.
+func splitConj(g string) []string {
+	g = strings.TrimSpace(g)
+	args, op := sexprArgs(g)
+	switch op {
+	case "and":
+		var out []string
+		for _, a := range args {
+			if a == "true" {
+				continue
+			}
+			out = append(out, splitConj(a)...)
+		}
+		if len(out) == 0 {
+			return []string{"true"}
+		}
+		return out
+	case "=>":
+		if len(args) == 2 {
+			rhs := splitConj(args[1])
+			if len(rhs) > 1 {
+				var out []string
+				for _, r := range rhs {
+					out = append(out, "(=> "+args[0]+" "+r+")")
+				}
+				return out
+			}
+		}
+	}
+	return []string{g}
+}
+
+// sexprArgs returns the operator and top-level arguments of "(op a b ...)".
+func sexprArgs(g string) ([]string, string) {
+	if len(g) < 2 || g[0] != '(' || g[len(g)-1] != ')' {
+		return nil, ""
+	}
+	body := g[1 : len(g)-1]
+	i := strings.IndexAny(body, " \t\n")
+	if i < 0 {
+		return nil, ""
+	}
+	op := body[:i]
+	if strings.ContainsAny(op, "()") {
+		return nil, ""
+	}
+	var args []string
+	d, start := 0, -1
+	for k := i; k < len(body); k++ {
+		c := body[k]
+		switch {
+		case c == '(':
+			if d == 0 && start < 0 {
+				start = k
+			}
+			d++
+		case c == ')':
+			d--
+			if d == 0 && start >= 0 && body[start] == '(' {
+				args = append(args, body[start:k+1])
+				start = -1
+			}
+		case c == ' ' || c == '\t' || c == '\n':
+			if d == 0 && start >= 0 {
+				args = append(args, body[start:k])
+				start = -1
+			}
+		default:
+			if d == 0 && start < 0 {
+				start = k
+			}
+		}
+	}
+	if start >= 0 {
+		args = append(args, body[start:])
+	}
+	return args, op
 }
